@@ -1,4 +1,3 @@
--- Root of the `BitstringModel` library: models (import-free), generated layer, proofs, properties.
+-- Root of the `BitstringModel` library.  Checks build the modules they need by name
+-- (`lake build BitstringModel.Props.Cxx`); `./check --setup` builds every Props/Model module.
 import BitstringModel.Model.Basic
-import BitstringModel.Model.C16
-import BitstringModel.Props.C16
